@@ -389,3 +389,146 @@ Example C11_zvode_nonvacuous :
      (false, 4, (true, 0, 4, 4, 4)); (false, 9, (true, 4, 9, 9, 9));
      (true, 9, (true, 4, 9, 9, 9)); (false, 5, (true, 4, 9, 5, 9))].
 Proof. split; [simpl; repeat split; intros; lia|vm_compute; reflexivity]. Qed.
+
+(* ======================================================================
+   Part 5 - Solver (solver_base.py): run / start / step / _argument, the
+   `options` setter, item assignment on the options object and
+   _apply_options, over the Integrator base-class contract.  Model in
+   Model/C11_solver.v.  Quantifiers: every set of solver-level and integrator
+   option keys and defaults, every set of registered methods, every flow
+   (an integrator depends only on its own options: flow_ext), every
+   history of option-dictionary assignments, item assignments, start, step
+   (with or without args) and run (with or without args).
+   ====================================================================== *)
+From QV Require Import Model.C11_solver Proofs.C11_solver.
+
+(* `solver.options = d`: nothing given is dropped and nothing else changes.
+   Every key of d ends with the value given (None = default); a key not in d
+   keeps its value, except that on a method change the integrator options not
+   given fall back to the NEW integrator's defaults.  (The defect fixed by
+   dc6ae06 - values equal to the old integrator's ones were dropped - is the
+   failure of exactly this statement.) *)
+Theorem C11_solver_options_nothing_dropped :
+  forall X A skey sdflt supports dflt valid_m nkeys,
+    skey 0%nat = true ->
+  forall (s s' : solv X A) d, NoDup (map fst d) ->
+    set_options X A skey sdflt supports dflt valid_m nkeys s d = (s', Ok) ->
+    meth sdflt (v_o s') = Z.to_nat (d_method skey sdflt dflt (v_o s) d) /\
+    forall k, look skey sdflt dflt (v_o s') k = spec_look skey sdflt dflt (v_o s) d k.
+Proof.
+  intros X A skey sdflt supports dflt valid_m nkeys. intros.
+  eapply (set_options_spec X A skey sdflt supports dflt valid_m nkeys); eassumption.
+Qed.
+Print Assumptions C11_solver_options_nothing_dropped.
+
+(* `solver.options[k] = v`: the key gets the value, every other key keeps its
+   own; assigning another method drops the old integrator's options (as the
+   source documents); and the integrator object agrees with the options
+   object afterwards. *)
+Theorem C11_solver_item_assignment :
+  forall X A skey sdflt supports dflt valid_m nkeys,
+    skey 0%nat = true ->
+  forall (s s' : solv X A) k v,
+    set_item X A skey sdflt supports dflt valid_m nkeys s k v = (s', Ok) ->
+    Coh X A skey sdflt supports dflt s ->
+    Coh X A skey sdflt supports dflt s' /\
+    forall j, look skey sdflt dflt (v_o s') j = item_look skey sdflt dflt (v_o s) k v j.
+Proof.
+  intros X A skey sdflt supports dflt valid_m nkeys. intros.
+  eapply (set_item_spec X A skey sdflt supports dflt valid_m nkeys); eassumption.
+Qed.
+Print Assumptions C11_solver_item_assignment.
+
+(* After construction and ANY admissible history, the integrator object in use
+   is of the class named by options["method"] and holds, for every option it
+   supports, the value the options object holds: no option change is lost
+   between the solver and its integrator (changes that need a new integrator
+   rebuild it, the others re-prepare it). *)
+Theorem C11_solver_integrator_coherent :
+  forall X A skey sdflt supports dflt valid_m nkeys flow,
+    skey 0%nat = true -> valid_m (sdflt 0%nat) = true ->
+  forall a0 d s ops,
+    init X A skey sdflt supports dflt valid_m nkeys a0 d = (s, Ok) ->
+    Forall (good_sop X A valid_m) ops ->
+    let s' := srun X A skey sdflt supports dflt valid_m nkeys flow s ops in
+    g_m (v_int s') = meth sdflt (v_o s') /\
+    forall k, supports (g_m (v_int s')) k = true ->
+              look skey sdflt dflt (g_o (v_int s')) k = look skey sdflt dflt (v_o s') k.
+Proof.
+  intros X A skey sdflt supports dflt valid_m nkeys flow H0 H2 a0 d s ops Hi Hg s'.
+  exact (srun_coh X A skey sdflt supports dflt valid_m nkeys flow H0 H2 ops s Hg
+           (init_coh X A skey sdflt supports dflt valid_m nkeys a0 d s Hi)).
+Qed.
+Print Assumptions C11_solver_integrator_coherent.
+
+(* What a step asks of the integrator, from any coherent state: the evolution
+   by the method named in the options, with the option values of the options
+   object, under the arguments last given (args of this call, else those in
+   force), from the position (t, x) the integrator stands at - i.e. what a new
+   solver built with these values and started at (t, x) is asked. *)
+Theorem C11_solver_step_request :
+  forall X A skey sdflt supports dflt flow,
+    (forall m f g a t t' x, (forall k, supports m k = true -> f k = g k) ->
+                            flow m f a t t' x = flow m g a t t' x) ->
+  forall (s : solv X A) t a x,
+    Coh X A skey sdflt supports dflt s ->
+    g_set (v_int s) = true -> g_x (v_int s) = Some x ->
+    let x' := flow (meth sdflt (v_o s)) (look skey sdflt dflt (v_o s))
+                   (cur_a A (v_args s) a) (g_t (v_int s)) t x in
+    let r := step X A skey sdflt dflt flow s t a in
+    snd r = Some x' /\ g_set (v_int (fst r)) = true /\ g_t (v_int (fst r)) = t /\
+    g_x (v_int (fst r)) = Some x' /\ v_args (fst r) = cur_a A (v_args s) a.
+Proof. intros. eapply step_answer; eassumption. Qed.
+Print Assumptions C11_solver_step_request.
+
+(* Option changes of either kind (accepted or refused) keep the position
+   (is_set, t, state) of the evolution and the arguments: a step afterwards
+   continues from where the solver stood. *)
+Theorem C11_solver_option_changes_keep_position :
+  forall X A skey sdflt supports dflt valid_m nkeys flow (s : solv X A) o,
+    (exists d, o = SOpts d) \/ (exists k v, o = SItem k v) ->
+    let s' := fst (do_sop X A skey sdflt supports dflt valid_m nkeys flow s o) in
+    pos X A s' = pos X A s /\ v_args s' = v_args s.
+Proof.
+  intros X A skey sdflt supports dflt valid_m nkeys flow s o H.
+  exact (options_keep_position X A skey sdflt supports dflt valid_m nkeys flow s o H).
+Qed.
+Print Assumptions C11_solver_option_changes_keep_position.
+
+(* run leaves the integrator at the last time and state it produced, with the
+   arguments it was given: as the docstring of Solver.step says, a step after
+   run continues from run's end (not from an earlier start). *)
+Theorem C11_solver_step_continues_after_run :
+  forall X A skey sdflt dflt flow (s : solv X A) x0 t0 tl a,
+    let r := run X A skey sdflt dflt flow s x0 t0 tl a in
+    length (snd r) = S (length tl) /\
+    pos X A (fst r) = (true, last tl t0, Some (last (snd r) x0)) /\
+    v_args (fst r) = cur_a A (v_args s) a.
+Proof. intros. apply run_position. Qed.
+Print Assumptions C11_solver_step_continues_after_run.
+
+(* non-vacuity: the executable instance meets the hypotheses; the history
+   contains the dc6ae06 scenario (method change with a value equal to the old
+   integrator's current one: atol stays 10, not the default 8), an item
+   assignment, a refused dictionary, run and step with arguments *)
+Example C11_solver_nonvacuous :
+  (x_skey 0 = true /\ x_valid (x_sdflt 0) = true /\
+   (forall m f g a t t' x, (forall k, x_supports m k = true -> f k = g k) ->
+                           x_flow m f a t t' x = x_flow m g a t t' x)) /\
+  let ops := [SStart 5 0; SStep 1 None; SOpts [(0%nat, Some 2); (3%nat, Some 10)];
+              SStep 2 (Some 2); SOpts [(7%nat, Some 1)]; SRun 7 0 [1; 2] (Some 3);
+              SStep 4 None; SItem 6 (Some 3); SStep 5 None] in
+  Forall (good_sop Z Z x_valid) ops /\
+  map (fun r => nth 3 (snd r) 0)
+      (x_trace (fst (x_init 1 [(0%nat, Some 1); (3%nat, Some 10)])) ops)
+  = [10; 10; 10; 10; 10; 10; 10; 10; 10] /\
+  map (fun r => fst (fst (fst r)))
+      (x_trace (fst (x_init 1 [(0%nat, Some 1); (3%nat, Some 10)])) ops)
+  = [false; false; false; false; true; false; false; false; false].
+Proof.
+  split; [split; [reflexivity|split; [reflexivity|exact x_flow_ext]]|].
+  intros ops. split.
+  - unfold ops. repeat constructor; simpl; try tauto;
+      try (intros [H|H]; [discriminate H|exact H]).
+  - vm_compute. split; reflexivity.
+Qed.
